@@ -859,7 +859,8 @@ func runRetarget(run *vlib.Run, s *chainsim.Sim, r *vlib.Rand, cfg Config) {
 	g.KeepViews = false
 	s.CompareUTXOEvery = 97
 	p := g.P
-	spacings := []uint32{1 + uint32(r.Intn(3)), 2400 + uint32(r.Intn(400)), 400 + uint32(r.Intn(300))} // fast, slow, in range
+	// fast, slow, negative timespan (0), in range
+	spacings := []uint32{1 + uint32(r.Intn(3)), 2400 + uint32(r.Intn(400)), 0, 400 + uint32(r.Intn(300))}
 	if p.MinDiffBlocks {
 		// testnet: keep the gaps of the second epoch below 20 minutes so that real difficulty is in force
 		spacings = []uint32{1 + uint32(r.Intn(3)), 400 + uint32(r.Intn(300)), 2400 + uint32(r.Intn(400))}
@@ -884,6 +885,15 @@ func runRetarget(run *vlib.Run, s *chainsim.Sim, r *vlib.Rand, cfg Config) {
 		epoch := int(tip.Height / refchain.Interval)
 		sp := spacings[epoch%len(spacings)]
 		t := tip.Time + sp
+		if sp == 0 {
+			// "negative timespan" epoch: the first block of the window is dated far ahead, the others creep
+			// just above the median-time-past, so the window's last timestamp is below its first
+			if tip.Height%refchain.Interval == refchain.Interval-1 || tip.Height == 0 {
+				t = tip.Time + 200000
+			} else {
+				t = tip.MTP() + 1
+			}
+		}
 		if m := tip.MTP(); t <= m {
 			t = m + 1
 		}
@@ -1097,7 +1107,7 @@ func Configs(tier string) []Config {
 		{Name: "testnet-late", Late: true, Testnet: true, Blocks: 140},
 	}
 	if tier == "quick" {
-		l = append(l, Config{Name: "retarget-mainnet", Retarget: true, Blocks: 2*2016 + 20}, Config{Name: "retarget-testnet", Retarget: true, Testnet: true, Blocks: 2*2016 + 20})
+		l = append(l, Config{Name: "retarget-mainnet", Retarget: true, Blocks: 4*2016 + 20}, Config{Name: "retarget-testnet", Retarget: true, Testnet: true, Blocks: 2*2016 + 20})
 	} else {
 		l = append(l, Config{Name: "retarget-mainnet", Retarget: true, Blocks: 6*2016 + 20}, Config{Name: "retarget-testnet", Retarget: true, Testnet: true, Blocks: 6*2016 + 20})
 	}
